@@ -75,10 +75,10 @@ func (g *Gen) emit(format string, a ...any) {
 	g.lines = append(g.lines, strings.Repeat("\t", g.ind)+fmt.Sprintf(format, a...))
 }
 
-func (g *Gen) push()                 { g.scopes = append(g.scopes, nil) }
-func (g *Gen) pop()                  { g.scopes = g.scopes[:len(g.scopes)-1] }
-func (g *Gen) declare(v variable)    { g.scopes[len(g.scopes)-1] = append(g.scopes[len(g.scopes)-1], v) }
-func (g *Gen) chance(pct int) bool   { return g.r.Intn(100) < pct }
+func (g *Gen) push()                  { g.scopes = append(g.scopes, nil) }
+func (g *Gen) pop()                   { g.scopes = g.scopes[:len(g.scopes)-1] }
+func (g *Gen) declare(v variable)     { g.scopes[len(g.scopes)-1] = append(g.scopes[len(g.scopes)-1], v) }
+func (g *Gen) chance(pct int) bool    { return g.r.Intn(100) < pct }
 func (g *Gen) pick(s []string) string { return s[g.r.Intn(len(s))] }
 
 // varsOf returns the visible variables whose type is identical to t.
